@@ -364,8 +364,13 @@ class ScipyOptimizeDriver(Driver):
                     
                     if linear:
                         # LinearConstraint
-                        con = LinearConstraint(A=lincongrad[self._con_idx[name]],
-                                               lb=lb, ub=ub, keep_feasible=True)
+                        start = self._con_idx[name]
+                        lin_jac = lincongrad[start:start + size]
+                        # the constraint is A x + c; scipy's LinearConstraint bounds A x only,
+                        # so move the constant term, taken at the initial point, into the bounds
+                        offset = np.asarray(self._con_cache[name]).ravel() - lin_jac @ x_init
+                        con = LinearConstraint(A=lin_jac, lb=lb - offset, ub=ub - offset,
+                                               keep_feasible=True)
                         constraints.append(con)
                     else:
                         # NonlinearConstraint
